@@ -21,10 +21,18 @@ import (
 )
 
 const (
-	RepoDir  = "/repo"
 	VerifDir = "/verif"
 	ModPath  = "github.com/libp2p/go-libp2p"
 )
+
+// RepoDir is the tree the encoding is generated from. Registered commands always use /repo;
+// VERIF_REPO lets a developer point the same machinery at a scratch worktree (seeded changes).
+var RepoDir = func() string {
+	if d := os.Getenv("VERIF_REPO"); d != "" {
+		return d
+	}
+	return "/repo"
+}()
 
 // HarnessFile is one overlay source with its directives.
 type HarnessFile struct {
